@@ -597,8 +597,8 @@ class ExprMixin(object):
     if isinstance(a, (VClass, VFunc, VBound, VModule)) or isinstance(b, (VClass, VFunc, VBound, VModule)):
       if isinstance(a, VClass) and isinstance(b, VClass):
         return z3.BoolVal(a.name == b.name)
-      fa = z3.IntVal(a.fn_id) if isinstance(a, VFunc) else (a.t if isinstance(a, V) and a.ty.k in ('fn', 'any') else None)
-      fb = z3.IntVal(b.fn_id) if isinstance(b, VFunc) else (b.t if isinstance(b, V) and b.ty.k in ('fn', 'any') else None)
+      fa = z3.IntVal(a.fn_id) if isinstance(a, (VFunc, VBound)) else (a.t if isinstance(a, V) and a.ty.k in ('fn', 'any') else None)
+      fb = z3.IntVal(b.fn_id) if isinstance(b, (VFunc, VBound)) else (b.t if isinstance(b, V) and b.ty.k in ('fn', 'any') else None)
       if fa is not None and fb is not None:
         return fa == fb
       raise Unsupported('== on callables')
@@ -656,6 +656,12 @@ class ExprMixin(object):
     if isinstance(op, (ast.Is, ast.IsNot)):
       if isinstance(a, V) and isinstance(b, V) and (a.ty.k == 'none' or b.ty.k == 'none'):
         r = self.is_none(b if a.ty.k == 'none' else a)
+      elif not isinstance(a, V) or not isinstance(b, V):
+        # callables / classes compared with None or with each other by identity
+        if (isinstance(a, V) and a.ty.k == 'none') or (isinstance(b, V) and b.ty.k == 'none'):
+          r = z3.BoolVal(False)
+        else:
+          r = self.eq_terms(st, cx, a, b)
       elif isinstance(a, V) and isinstance(b, V) and a.ty.is_reflike and b.ty.is_reflike:
         r = a.t == b.t
       elif isinstance(a, V) and isinstance(b, V) and a.ty.k == 'bool' and b.ty.k == 'bool':
